@@ -11,6 +11,10 @@
  *        R<slot>:<n>      realloc to n bytes (n = 0 releases)       F<slot>   release
  *        Q                query tracer bytes / count                P         schedule point
  *        D                aws_mem_tracer_dump
+ *        z<op>            the operation performed from 300 stack frames further down (stack traces of full depth)
+ *   UNIT <bytes>         every size of the script is multiplied by <bytes> (e.g. 2^30) and every reported size / total
+ *                        divided by it; the traced allocator then only reserves address space (nothing touches it; no
+ *                        calloc, no content checks): blocks and totals beyond 4 GiB
  * Every block is filled with an id-derived pattern over its REQUESTED size; after every operation the calling
  * thread re-checks the patterns of all blocks that are not in the middle of another thread's operation. */
 #include "vh_core.h"
@@ -28,6 +32,49 @@ struct blk {
     bool busy; /* inside a release / realloc call of its owner */
 };
 static struct blk slots[NSLOT];
+static size_t unit = 1;
+#include <sys/mman.h>
+/* reserve-only allocator for UNIT scenarios: sizes are remembered in front of nothing - a small table instead */
+static struct {
+    void *p;
+    size_t n;
+} resv[64];
+static void *resv_acquire(struct aws_allocator *a, size_t n) {
+    (void)a;
+    void *p = mmap(NULL, n, PROT_NONE, MAP_PRIVATE | MAP_ANONYMOUS | MAP_NORESERVE, -1, 0);
+    if (p == MAP_FAILED) {
+        abort();
+    }
+    for (int i = 0; i < 64; ++i) {
+        if (!resv[i].p) {
+            resv[i].p = p;
+            resv[i].n = n;
+            vh_live_blocks++;
+            return p;
+        }
+    }
+    abort();
+}
+static void resv_release(struct aws_allocator *a, void *p) {
+    (void)a;
+    for (int i = 0; i < 64; ++i) {
+        if (resv[i].p == p) {
+            munmap(p, resv[i].n);
+            resv[i].p = NULL;
+            vh_live_blocks--;
+            return;
+        }
+    }
+    abort(); /* a block this allocator never handed out */
+}
+static void *resv_realloc(struct aws_allocator *a, void *old, size_t oldsize, size_t newsize) {
+    (void)oldsize;
+    void *p = resv_acquire(a, newsize);
+    if (old) {
+        resv_release(a, old);
+    }
+    return p;
+}
 static struct aws_allocator *sba; /* the tracing allocator */
 static int level;
 static int flavour;
@@ -49,12 +96,18 @@ static uint8_t pat(int id, size_t i) {
     return (uint8_t)(id * 31 + i * 7 + 3);
 }
 static void fill(struct blk *b, size_t from) {
+    if (unit > 1) {
+        return;
+    }
     for (size_t i = from; i < b->n; ++i) {
         b->p[i] = pat(b->id, i);
     }
 }
 static int count_bad(void) {
     int bad = 0;
+    if (unit > 1) {
+        return 0; /* reserved address space: nobody reads or writes it */
+    }
     for (int s = 0; s < NSLOT; ++s) {
         struct blk *b = &slots[s];
         if (!b->p || b->busy) {
@@ -92,13 +145,35 @@ static void tail(void) {
     if (concurrent_phase) {
         vh_int("active", -1);
     } else {
-        vh_int("active", (long long)aws_mem_tracer_bytes(sba));
+        vh_int("active", (long long)(aws_mem_tracer_bytes(sba) / unit));
     }
+}
+
+static void do_ops(struct prog *pg);
+/* 300 frames further down: every frame keeps something on the stack and calls on (no tail call) */
+static __attribute__((noinline)) int deep(int d, struct prog *one) {
+    volatile char pad[48];
+    pad[0] = (char)d;
+    if (d == 0) {
+        do_ops(one);
+        return pad[0];
+    }
+    int r = deep(d - 1, one);
+    return r + pad[0];
 }
 
 static void do_ops(struct prog *pg) {
     for (int i = 0; i < pg->nops; ++i) {
         const char *op = pg->ops[i];
+        if (op[0] == 'z') {
+            static __thread struct prog one; /* a program of its own with just this operation */
+            memset(&one, 0, sizeof(one));
+            one.k = pg->k;
+            one.nops = 1;
+            strncpy(one.ops[0], op + 1, sizeof(one.ops[0]) - 1);
+            deep(300, &one);
+            continue;
+        }
         int slot = 0;
         unsigned long a = 0, b = 0;
         if (op[0] == 'P') {
@@ -114,7 +189,7 @@ static void do_ops(struct prog *pg) {
                 nsmall += slots[s].p != NULL;
             }
             vh_begin("Query");
-            vh_int("bytes", (long long)aws_mem_tracer_bytes(sba));
+            vh_int("bytes", (long long)(aws_mem_tracer_bytes(sba) / unit));
             vh_int("count", (long long)aws_mem_tracer_count(sba));
             vh_int("nlive", nsmall);
             vh_end();
@@ -126,7 +201,7 @@ static void do_ops(struct prog *pg) {
             }
             aws_mem_tracer_dump(sba);
             vh_begin("Dump");
-            vh_int("bytes", (long long)aws_mem_tracer_bytes(sba));
+            vh_int("bytes", (long long)(aws_mem_tracer_bytes(sba) / unit));
             vh_int("count", (long long)aws_mem_tracer_count(sba));
             vh_int("bad", count_bad());
             vh_end();
@@ -141,12 +216,13 @@ static void do_ops(struct prog *pg) {
         struct blk *bl = &slots[slot];
         if ((op[0] == 'A' || op[0] == 'C') && !bl->p) {
             size_t n = op[0] == 'A' ? a : a * b;
-            if (n == 0) {
+            if (n == 0 || (unit > 1 && op[0] == 'C')) {
                 continue;
             }
+            n *= unit;
             uint8_t *p = op[0] == 'A' ? aws_mem_acquire(sba, n) : aws_mem_calloc(sba, a, b);
             int zero = 1;
-            if (op[0] == 'C') {
+            if (op[0] == 'C' && unit == 1) {
                 for (size_t j = 0; j < n; ++j) {
                     zero &= p[j] == 0;
                 }
@@ -157,7 +233,7 @@ static void do_ops(struct prog *pg) {
             fill(bl, 0); /* the whole requested size is writable (ASan watches the page end / parent block end) */
             vh_begin("Acq");
             vh_int("id", bl->id);
-            vh_int("n", (long long)n);
+            vh_int("n", (long long)(n / unit));
             vh_int("calloc", op[0] == 'C');
             vh_int("zero", zero);
             where(p);
@@ -176,13 +252,13 @@ static void do_ops(struct prog *pg) {
             tail();
             vh_end();
         } else if (op[0] == 'R' && bl->p) {
-            size_t nn = a;
+            size_t nn = a * unit;
             size_t old = bl->n;
             bl->busy = true;
             vh_begin("ReallocBegin");
             vh_int("id", bl->id);
-            vh_int("nold", (long long)old);
-            vh_int("nnew", (long long)nn);
+            vh_int("nold", (long long)(old / unit));
+            vh_int("nnew", (long long)(nn / unit));
             vh_end();
             void *p = bl->p;
             int rc = aws_mem_realloc(sba, &p, old, nn);
@@ -190,7 +266,7 @@ static void do_ops(struct prog *pg) {
             int prefix = 1;
             bl->p = p;
             if (p) {
-                size_t keep = old < nn ? old : nn;
+                size_t keep = unit > 1 ? 0 : (old < nn ? old : nn);
                 for (size_t j = 0; j < keep; ++j) {
                     prefix &= bl->p[j] == pat(bl->id, j);
                 }
@@ -242,6 +318,7 @@ static void scenario(char **lines, int nlines) {
     next_id = 0;
     npages = 0;
     int mt = 0;
+    unit = 1;
     for (int i = 0; i < nlines; ++i) {
         char *dup = strdup(lines[i]);
         char *save = NULL;
@@ -252,6 +329,8 @@ static void scenario(char **lines, int nlines) {
             mt = atoi(strtok_r(NULL, " ", &save)); /* frames per stack */
             const char *fl = strtok_r(NULL, " ", &save);
             flavour = fl ? atoi(fl) : 0;
+        } else if (strcmp(tok, "UNIT") == 0) {
+            unit = (size_t)strtoull(strtok_r(NULL, " ", &save), NULL, 10);
         } else if (strcmp(tok, "MAIN") == 0) {
             parse_ops(&mainp, &save);
         } else if (strcmp(tok, "POST") == 0) {
@@ -264,6 +343,13 @@ static void scenario(char **lines, int nlines) {
         free(dup);
     }
     traced = *vh_alloc();
+    if (unit > 1) {
+        traced.mem_acquire = resv_acquire;
+        traced.mem_release = resv_release;
+        traced.mem_realloc = resv_realloc;
+        traced.mem_calloc = NULL;
+        flavour = 0;
+    }
     if (flavour == 1 || flavour == 3) {
         traced.mem_realloc = NULL;
     }
@@ -306,7 +392,7 @@ static void scenario(char **lines, int nlines) {
         }
     }
     vh_begin("Query");
-    vh_int("bytes", (long long)aws_mem_tracer_bytes(sba));
+    vh_int("bytes", (long long)(aws_mem_tracer_bytes(sba) / unit));
     vh_int("count", (long long)aws_mem_tracer_count(sba));
     vh_int("nlive", 0);
     vh_end();
